@@ -78,10 +78,10 @@ func runAll() {
 		}
 	}
 	// C01, second pass: the well-framed single frames that allocated most per input octet are repeated to fill a
-	// 32 KiB datagram; the allocation bound must hold for the datagram as a whole (a decoder that reserves
+	// 8 KiB datagram; the allocation bound must hold for the datagram as a whole (a decoder that reserves
 	// memory from a count field stays under the fixed part of the bound for one packet but not for hundreds)
 	for i, c := range amplifiers {
-		rep := bytes.Repeat(c.frame, 32768/len(c.frame))
+		rep := bytes.Repeat(c.frame, 8192/len(c.frame))
 		op := opDgram(rep)
 		line := fmt.Sprintf("(case %d C01 %s)", 90000000+i, op)
 		currentCase.Store(line)
@@ -97,7 +97,7 @@ type amplifier struct {
 
 var amplifiers []amplifier
 
-const maxAmplifiers = 48
+const maxAmplifiers = 24
 
 func noteAmplifier(op *Sx, alloc uint64) {
 	if op.K != 'l' || len(op.L) < 2 {
